@@ -363,6 +363,9 @@ func executeSafe(in Input) ([]Res, string) {
 	var out, errb bytes.Buffer
 	cmd.Stdout, cmd.Stderr = &out, &errb
 	err := cmd.Run()
+	if cmd.Process != nil { // a child that died could not remove its scratch directory
+		os.RemoveAll(fmt.Sprintf("/tmp/vh-io-%d", cmd.Process.Pid))
+	}
 	var obs []Res
 	if err == nil && json.Unmarshal(out.Bytes(), &obs) == nil && len(obs) == len(in.Ops) {
 		return obs, ""
